@@ -1,4 +1,4 @@
-ENABLED = False
+ENABLED = True
 GEN = ("Trusted: Lean kernel (axioms propext/Classical.choice/Quot.sound only, audited each run), the hand-written model's fidelity as "
        "validated by the correspondence run, the T-gen dump test (values read from the compiled program), the Go harness; math/big, "
        "the Go runtime and Keccak are modelled not verified.")
